@@ -97,6 +97,20 @@ def stream_loop_shape(ctx, prog, rule):
                     if pl["local"] == d and pl["proj"] and pl["proj"][0]["k"] == "deref":
                         v = strip_casts(R.rvalue(st["rv"]))
                         oks = v[0] == "call" and v[1].endswith("u16>::from_le_bytes")
+    if not oks:
+        # the same store through `for size in self.buffer_sizes.iter_mut() { *size = .. }`
+        import elems
+        for b2 in f.cfg():
+            for st in f.blocks[b2]["stmts"]:
+                pl = st["place"]
+                if pl["proj"] and len(pl["proj"]) == 1 and pl["proj"][0]["k"] == "deref":
+                    tr = R.local(pl["local"])
+                    if tr[0] == "partial":
+                        tr = tr[1]
+                    e = elems.elem_of(tr)
+                    if e is not None and self_field(strip(e[0])) == "buffer_sizes" and not e[1]:
+                        v = strip_casts(R.rvalue(st["rv"]))
+                        oks = v[0] == "call" and v[1].endswith("u16>::from_le_bytes")
     ctx.ob(rule, "stream-sizes/advance", oks, "buffer_sizes[i] <- u16::from_le_bytes(2 bytes read from the packet)")
     # payload: buffer.resize(size_i) ; read_exact(buffer) ; byte_streams[i].append(buffer) with the same i
     okp = False
